@@ -37,7 +37,8 @@ PROBES_REQUIRED = ["fs_vanished", "fs_fault_stat_EACCES", "special_enumerated"]
 
 KINDS = ["dangling", "loop", "fifo", "socket", "dotdot", "backslash", "stat-ENOENT",
          "stat-EACCES", "stat-EIO", "vanish-stat", "vanish-open", "dot-dangling", "dot-socket",
-         "dot-fifo", "vanish-any", "vanish-sidecar"]
+         "dot-fifo", "vanish-any", "vanish-sidecar", "sidecar-socket", "sidecar-dangling",
+         "sidecar-fifo"]
 PREFIXES = ["0", "a", "m", "zz", "B"]
 
 
@@ -89,12 +90,25 @@ def _bad_entry(rng, kind, pre, i):
         faults.append({"op": "any", "rel": pre + name, "kind": "vanish", "nth": rng.randrange(0, 6),
                        "after_listed": True})
     elif kind == "vanish-sidecar":
-        # the entry stays, its .abstract sidecar disappears between enumeration and use
-        name = base + ".txt"
-        ent.append({"p": pre + name, "k": "file", "d": "has a sidecar\n"})
-        ent.append({"p": pre + name + ".abstract", "k": "file", "d": "about it\n"})
-        faults.append({"op": "any", "rel": pre + name + ".abstract", "kind": "vanish",
+        # a healthy entry whose .abstract sidecar disappears between enumeration and use: the
+        # unservable directory entry is the sidecar; the entry itself must stay listed
+        ext = rng.choice([".abstract", ".abstract", ".keywords", ".ask", ".3d"])
+        name = base + ".txt" + ext
+        ent.append({"p": pre + base + ".txt", "k": "file", "d": "has a sidecar\n", "healthy": True})
+        ent.append({"p": pre + name, "k": "file", "d": "about it\n"})
+        faults.append({"op": "any", "rel": pre + name, "kind": "vanish",
                        "nth": rng.randrange(0, 3), "after_listed": True})
+    elif kind in ("sidecar-socket", "sidecar-dangling", "sidecar-fifo"):
+        ext = rng.choice([".abstract", ".abstract", ".keywords", ".ask", ".3d"])
+        name = base + ".txt" + ext
+        ent.append({"p": pre + base + ".txt", "k": "file", "d": "neighbour of a special sidecar\n",
+                    "healthy": True})
+        if kind == "sidecar-socket":
+            ent.append({"p": pre + name, "k": "socket"})
+        elif kind == "sidecar-fifo":
+            ent.append({"p": pre + name, "k": "fifo"})
+        else:
+            ent.append({"p": pre + name, "k": "symlink", "to": "nowhere-" + base})
     elif kind == "dot-dangling":
         name = "." + base
         ent.append({"p": pre + name, "k": "symlink", "to": "nowhere-" + base})
@@ -125,7 +139,11 @@ def gen(seed, index, tier):
     for j, k in enumerate(kinds):
         name, ent, fl = _bad_entry(rng, k, pre, j)
         bad.append(name)
-        badspec.extend(ent)
+        for e in ent:
+            if e.pop("healthy", False):
+                base.append(e)      # a healthy neighbour: part of the reference world, must stay listed
+            else:
+                badspec.append(e)
         faults.extend(fl)
     return {
         "spec": base, "bad_spec": badspec, "bad": bad, "kinds": kinds, "faults": faults,
@@ -186,7 +204,8 @@ def execute(sc, tape=None):
             hits = sorted(h for h in hits if h[0] >= 0)
             culprit = hits[0][1] if hits else "+".join(sorted(set(sc["kinds"])))
             if not c.server_done():
-                viol = {"oracle": "answered", "signature": {"oracle": "answered", "kind": "dot-fifo" if "dot-fifo" in sc["kinds"] else culprit,
+                viol = {"oracle": "answered", "signature": {"oracle": "answered", "kind": ("dot-fifo" if "dot-fifo" in sc["kinds"] else
+                                                                   "sidecar-fifo" if "sidecar-fifo" in sc["kinds"] else culprit),
                                                           "why": "connection never answered (worker blocked)"},
                         "detail": "state=%s blocked=%s" % (st, [a.label for a in run.sim.actors if a.state == "blocked"])}
             elif got != ref:
@@ -214,7 +233,8 @@ def execute(sc, tape=None):
             if inconclusive:
                 counters["unparsed_success_no_verdict"] = 1
         special = any(k in ("dangling", "loop", "fifo", "socket", "dotdot", "backslash",
-                            "dot-dangling", "dot-socket", "dot-fifo") for k in sc["kinds"])
+                            "dot-dangling", "dot-socket", "dot-fifo", "sidecar-socket",
+                            "sidecar-dangling", "sidecar-fifo") for k in sc["kinds"])
         if special and counters.get("fs_listdir", 0):
             counters["special_enumerated"] = 1
         fired = special or any(f.fired for f in run.fs.faults)
